@@ -63,6 +63,8 @@ def _edits(line, connected):
       for kk, vv in v.items():
         if isinstance(vv, list):
           out.append((fn + ": nested append", lambda n, vv=vv: vv.append(n)))
+    elif isinstance(v, gfapy.FieldArray):
+      out.append((fn + ": fieldarray append", lambda n, v=v: v.append(n)))
     elif isinstance(v, list):
       if v and isinstance(v[0], gfapy.OrientedLine) and not locked:
         out.append((fn + ": item flip", lambda n, v=v: setattr(v[0], "orient", "-" if v[0].orient == "+" else "+")))
@@ -101,8 +103,9 @@ def h_clone(di: int, li: int, connected: bool, vl: int, side: bool, ed: int, n: 
       g = gfapy.Gfa(list(doc), vlevel=level)
       text = doc[li]
       if text.startswith("H\t"):
-        return True                           # header lines are merged into one object: covered standalone
-      orig = [l for l in g.lines if line_text(l) == text][0]
+        orig = g.header                        # the merged header (repeated tags are held as FieldArray)
+      else:
+        orig = [l for l in g.lines if line_text(l) == text][0]
     else:
       g = None
       orig = gfapy.Line(doc[li], vlevel=level, version=("gfa1" if di == 0 else "gfa2"))
